@@ -8,6 +8,8 @@ Judge(r) == LET pre == T(r.pre)
                 q == [fee |-> r.fee, extra |-> r.extra] IN
             IF r.refused THEN [v |-> "ok", must |-> MustRefuse(pre, q)]
             ELSE IF MustRefuse(pre, q) THEN [v |-> "created-although-the-change-cannot-pay-the-increase", must |-> TRUE]
+            \* the outputs of a transaction are numbered by their position
+            ELSE IF r.nums # [i \in 1..Len(r.nums) |-> i - 1] THEN [v |-> "output-numbers-are-not-positions", must |-> FALSE]
             ELSE [v |-> BumpWhy(pre, T(r.post), q), must |-> FALSE]
 Out == [k \in 1..Len(Recs) |-> Judge(Recs[k])]
 ASSUME ndJsonSerialize(IOEnv.OUT_FILE, Out)
